@@ -83,6 +83,7 @@ type origin struct {
 	bodies  []*bodyReader
 	onFetch func(n int) // hook: runs when the n-th request arrives (before answering)
 	byPath  map[string]originResp // when set: the answer depends on the path only
+	answer  func(req *http.Request) originResp // when set: the answer is computed from the request
 }
 
 func (o *origin) do(req *http.Request) (*http.Response, error) {
@@ -111,7 +112,9 @@ func (o *origin) do(req *http.Request) (*http.Response, error) {
 		i = 0
 	}
 	var r originResp
-	if o.byPath != nil {
+	if o.answer != nil {
+		r = o.answer(req)
+	} else if o.byPath != nil {
 		r = o.byPath[req.URL.Path]
 	} else {
 		r = o.script[i]
